@@ -1,7 +1,10 @@
 (* C03, lexical level, layer 3: short strings.
    EscCode = the escape sequences lexer.go readEscapeSequence accepts (a superset of the manual's EscLua: `\q`,
    `\x` without two hex digits, `\256`, `\u` without braces ... are taken as they come - the recorded deviation).
-   scan_short_string raises no error and stops at r  <->  StrItems EscCode q (text after the quote) r. *)
+   EscFx fx = what the variant fx of the code accepts WITHOUT raising an error (Model/Lexer.v, FxEscape): before the
+   repair (fx = false) all of EscCode; after it (fx = true) the members of EscCode that start a legal escape of the manual
+   (legal_escape, Spec/LuaLex.v) - the repaired readEscapeSequence scans as before and reports the others.
+   scan_short_string raises no error and stops at r  <->  StrItems (EscFx fx) q (text after the quote) r. *)
 From Coq Require Import List NArith ZArith Bool Arith Lia ZifyNat ZifyN ZifyBool.
 From LH Require Import Base.Bytes Base.Res Model.Codec Model.Lexer Spec.LuaNumeral Spec.LuaLex.
 From LH Require Import Proofs.LexerTotalFuel Proofs.LexerTotalProgress Proofs.LexerGrammarBase.
@@ -118,6 +121,66 @@ Qed.
 Lemma esc_code_nonempty e r : EscCode e r -> e <> [].
 Proof. intros [ | | | | |ds r' Hne _ _| ]; try discriminate. exact Hne. Qed.
 
+(* ------------------------------------------------------------------ the escapes a variant of the code accepts silently *)
+Definition EscFx (fx : bool) (e r : list N) : Prop := EscCode e r /\ (fx = true -> legal_escape (e ++ r) = true).
+
+Lemma esc_fx_code fx e r : EscFx fx e r -> EscCode e r.
+Proof. intros [H _]. exact H. Qed.
+
+Lemma esc_code_fx_false e r : EscCode e r -> EscFx false e r.
+Proof. intros H. split; [exact H|discriminate]. Qed.
+
+(* the strict checks of the repaired code are the boolean test of the spec *)
+Lemma hex_digit_value_lc c : lx_xdigit c = true -> hex_digit_value c = num_digit_val (num_lc c).
+Proof.
+  unfold lx_xdigit, lx_digit, hex_digit_value, num_digit_val, num_lc, num_digit. intros H.
+  repeat match goal with |- context [if ?b then _ else _] => destruct b eqn:? end; lia.
+Qed.
+
+Lemma dec_value_spec : forall n l acc,
+  dec_value n l acc = fold_left (fun a c => a * 10 + num_digit_val c) (firstn n (take_while lx_digit l)) acc.
+Proof.
+  induction n as [|n IH]; intros l acc; [destruct l; reflexivity|].
+  destruct l as [|c t]; [reflexivity|]. cbn [dec_value take_while]. rewrite cls_digit.
+  destruct (lx_digit c) eqn:E; [|reflexivity]. cbn [firstn fold_left]. rewrite IH.
+  unfold num_digit_val, num_digit. unfold lx_digit in E. rewrite E. reflexivity.
+Qed.
+
+Lemma utf8_esc_loop_spec : forall l v d, v < 2147483648 ->
+  utf8_esc_loop l v d =
+  let hs := take_while lx_xdigit l in
+  (d || negb (match hs with [] => true | _ => false end)) && hd_is (N.eqb 125) (skipn (length hs) l)
+  && (fold_left (fun a c => a * 16 + num_digit_val c) (map num_lc hs) v <? 2147483648).
+Proof.
+  induction l as [|c t IH]; intros v d Hv; cbn [utf8_esc_loop take_while].
+  { cbv zeta. cbn [length skipn hd_is]. rewrite andb_false_r. reflexivity. }
+  rewrite cls_xdigit. destruct (lx_xdigit c) eqn:E.
+  - cbv zeta. cbn [length skipn map fold_left]. rewrite <- (hex_digit_value_lc c E).
+    set (v' := v * 16 + hex_digit_value c).
+    destruct (2147483648 <=? v') eqn:Eb.
+    + symmetry. apply andb_false_iff. right. apply N.ltb_ge.
+      assert (M : forall hs a, a <= fold_left (fun a c => a * 16 + num_digit_val c) hs a).
+      { induction hs as [|h hs IHh]; intros a; cbn [fold_left]; [lia|]. etransitivity; [|apply IHh]. lia. }
+      etransitivity; [|apply M]. lia.
+    + rewrite IH by lia. cbv zeta. rewrite orb_true_r. cbn [orb negb]. reflexivity.
+  - cbv zeta. cbn [length skipn hd_is map fold_left negb]. rewrite orb_false_r.
+    assert (Hc : (c =? 125) = (125 =? c)) by apply N.eqb_sym. rewrite Hc.
+    replace (v <? 2147483648) with true by lia. rewrite andb_true_r. apply andb_comm.
+Qed.
+
+Lemma is_utf8_escape_spec t :
+  is_utf8_escape t =
+  match t with
+  | b :: t' => let hs := take_while lx_xdigit t' in
+               (b =? 123) && negb (match hs with [] => true | _ => false end)
+               && hd_is (N.eqb 125) (skipn (length hs) t') && (num_value 16 (map num_lc hs) <? 2147483648)
+  | [] => false
+  end.
+Proof.
+  destruct t as [|b t']; [reflexivity|]. cbn [is_utf8_escape]. rewrite utf8_esc_loop_spec by lia. cbv zeta.
+  cbn [orb]. unfold num_value. rewrite !andb_assoc. reflexivity.
+Qed.
+
 (* ------------------------------------------------------------------ the helpers of readEscapeSequence *)
 Lemma skip_digits_spec : forall f ch i, (length ch - i < f)%nat ->
   skip_digits_f f ch i = (i + length (take_while lx_digit (skipn i ch)))%nat.
@@ -151,44 +214,79 @@ Proof.
     + rewrite IH by lia. rewrite E1. lia.
 Qed.
 
-Lemma read_escape_spec ch i ln ls p0 piece i2 ln' ls' es :
+Lemma simple_escape_eq c : simple_escape c = existsb (fun x => x =? c) [97; 98; 102; 110; 114; 116; 118; 92; 34; 39].
+Proof. reflexivity. Qed.
+
+Lemma legal_simple c t : simple_escape c || lx_newline c || (c =? 122) = true -> legal_escape (c :: t) = true.
+Proof. intros H. unfold legal_escape. rewrite H. reflexivity. Qed.
+
+Lemma legal_digit c t : lx_digit c = true ->
+  legal_escape (c :: t) = (num_value 10 (firstn 3 (take_while lx_digit (c :: t))) <=? 255).
+Proof.
+  intros H. unfold legal_escape.
+  replace (simple_escape c || lx_newline c || (c =? 122)) with false
+    by (rewrite simple_escape_eq; cbn [existsb]; unfold lx_newline, lx_digit in *; lia).
+  replace (c =? 120) with false by (unfold lx_digit in H; lia). rewrite H. reflexivity.
+Qed.
+
+Lemma legal_other c t : simple_escape c = false -> lx_newline c = false -> c <> 122 -> c <> 120 ->
+  lx_digit c = false -> c <> 117 -> legal_escape (c :: t) = false.
+Proof.
+  intros H1 H2 H3 H4 H5 H6. unfold legal_escape. rewrite H1, H2, H5.
+  replace (c =? 122) with false by lia. replace (c =? 120) with false by lia. replace (c =? 117) with false by lia.
+  reflexivity.
+Qed.
+
+Lemma esc_err_false {fx : FxEscape} : esc_err false = [].
+Proof. unfold esc_err. rewrite andb_false_r. reflexivity. Qed.
+
+Lemma esc_err_nil {fx : FxEscape} b : esc_err (negb b) = [] -> fx = true -> b = true.
+Proof. unfold esc_err, fx_escape. intros H ->. destruct b; [reflexivity|discriminate]. Qed.
+
+Lemma esc_err_legal {fx : FxEscape} b : (fx = true -> b = true) -> esc_err (negb b) = [].
+Proof. unfold esc_err, fx_escape. intros H. destruct fx; [rewrite (H eq_refl)|]; reflexivity. Qed.
+
+(* one call of readEscapeSequence: it consumes esc_len bytes in both variants; the repaired one reports exactly the
+   sequences that do not start a legal escape of the manual *)
+Lemma read_escape_spec {fx : FxEscape} ch i ln ls p0 piece i2 ln' ls' es :
   (i < length ch)%nat -> read_escape ch i ln ls p0 = (piece, i2, ln', ls', es) ->
-  es = [] /\ i2 = (i + esc_len (skipn i ch))%nat.
+  es = esc_err (negb (legal_escape (skipn i ch))) /\ i2 = (i + esc_len (skipn i ch))%nat.
 Proof.
   intros Hi. unfold read_escape. rewrite (nth_byte_skipn ch i).
   destruct (skipn i ch) as [|c t] eqn:E.
   { exfalso. assert (Hl : length (skipn i ch) = 0%nat) by (rewrite E; reflexivity). rewrite skipn_length in Hl. lia. }
-  cbn [hd_error esc_len]. pose proof (skipn_S_cons _ _ _ _ E) as E1.
+  cbn [hd_error]. pose proof (skipn_S_cons _ _ _ _ E) as E1.
   assert (Hlen : (S (length t) = length ch - i)%nat) by (rewrite <- skipn_length, E; reflexivity).
-  destruct (c =? 97) eqn:T1; [intros H; pinj H; split; [reflexivity|];
-    replace (c =? 120) with false by lia; replace (lx_newline c) with false by (unfold lx_newline; lia);
-    replace (c =? 122) with false by lia; replace (lx_digit c) with false by (unfold lx_digit; lia); lia|].
-  destruct (c =? 98) eqn:T2; [intros H; pinj H; split; [reflexivity|];
-    replace (c =? 120) with false by lia; replace (lx_newline c) with false by (unfold lx_newline; lia);
-    replace (c =? 122) with false by lia; replace (lx_digit c) with false by (unfold lx_digit; lia); lia|].
-  destruct (c =? 102) eqn:T3; [intros H; pinj H; split; [reflexivity|];
-    replace (c =? 120) with false by lia; replace (lx_newline c) with false by (unfold lx_newline; lia);
-    replace (c =? 122) with false by lia; replace (lx_digit c) with false by (unfold lx_digit; lia); lia|].
-  destruct (c =? 110) eqn:T4; [intros H; pinj H; split; [reflexivity|];
-    replace (c =? 120) with false by lia; replace (lx_newline c) with false by (unfold lx_newline; lia);
-    replace (c =? 122) with false by lia; replace (lx_digit c) with false by (unfold lx_digit; lia); lia|].
-  destruct (c =? 114) eqn:T5; [intros H; pinj H; split; [reflexivity|];
-    replace (c =? 120) with false by lia; replace (lx_newline c) with false by (unfold lx_newline; lia);
-    replace (c =? 122) with false by lia; replace (lx_digit c) with false by (unfold lx_digit; lia); lia|].
-  destruct (c =? 116) eqn:T6; [intros H; pinj H; split; [reflexivity|];
-    replace (c =? 120) with false by lia; replace (lx_newline c) with false by (unfold lx_newline; lia);
-    replace (c =? 122) with false by lia; replace (lx_digit c) with false by (unfold lx_digit; lia); lia|].
-  destruct (c =? 118) eqn:T7; [intros H; pinj H; split; [reflexivity|];
-    replace (c =? 120) with false by lia; replace (lx_newline c) with false by (unfold lx_newline; lia);
-    replace (c =? 122) with false by lia; replace (lx_digit c) with false by (unfold lx_digit; lia); lia|].
+  destruct (c =? 97) eqn:T1;
+    [apply N.eqb_eq in T1; subst c; intros H; pinj H; split; [symmetry; apply esc_err_false|cbn; lia]|].
+  destruct (c =? 98) eqn:T2;
+    [apply N.eqb_eq in T2; subst c; intros H; pinj H; split; [symmetry; apply esc_err_false|cbn; lia]|].
+  destruct (c =? 102) eqn:T3;
+    [apply N.eqb_eq in T3; subst c; intros H; pinj H; split; [symmetry; apply esc_err_false|cbn; lia]|].
+  destruct (c =? 110) eqn:T4;
+    [apply N.eqb_eq in T4; subst c; intros H; pinj H; split; [symmetry; apply esc_err_false|cbn; lia]|].
+  destruct (c =? 114) eqn:T5;
+    [apply N.eqb_eq in T5; subst c; intros H; pinj H; split; [symmetry; apply esc_err_false|cbn; lia]|].
+  destruct (c =? 116) eqn:T6;
+    [apply N.eqb_eq in T6; subst c; intros H; pinj H; split; [symmetry; apply esc_err_false|cbn; lia]|].
+  destruct (c =? 118) eqn:T7;
+    [apply N.eqb_eq in T7; subst c; intros H; pinj H; split; [symmetry; apply esc_err_false|cbn; lia]|].
   destruct (c =? 120) eqn:Tx.
-  { rewrite (nth_byte_skipn ch (S i)), E1. destruct t as [|h1 t']; cbn [hd_error].
-    - intros H; pinj H. split; [reflexivity|lia].
+  { apply N.eqb_eq in Tx. subst c.
+    rewrite (nth_byte_skipn ch (S i)), E1. destruct t as [|h1 t']; cbn [hd_error].
+    - intros H; pinj H. split; [reflexivity|cbn; lia].
     - rewrite (nth_byte_skipn ch (S (S i))), (skipn_S_cons _ _ _ _ E1).
-      destruct t' as [|h2 t'']; cbn [hd_error]; [intros H; pinj H; split; [reflexivity|lia]|].
-      change is_hex_digit with lx_xdigit. destruct (lx_xdigit h1 && lx_xdigit h2); intros H; pinj H; split; try reflexivity; lia. }
+      destruct t' as [|h2 t'']; cbn [hd_error]; [intros H; pinj H; split; [reflexivity|cbn; lia]|].
+      change is_hex_digit with lx_xdigit.
+      change (legal_escape (120 :: h1 :: h2 :: t'')) with (lx_xdigit h1 && lx_xdigit h2). cbn [esc_len N.eqb Pos.eqb].
+      destruct (lx_xdigit h1 && lx_xdigit h2); intros H; pinj H; split; try reflexivity; try lia.
+      symmetry. apply esc_err_false. }
+  destruct (c =? 117) eqn:Tu.
+  { apply N.eqb_eq in Tu. subst c. rewrite E1, is_utf8_escape_spec. intros H; pinj H. split; [reflexivity|cbn; lia]. }
   rewrite cls_newline. destruct (lx_newline c) eqn:Tn.
-  { unfold consume_eol. rewrite (nth_byte_skipn ch i), E. cbn [hd_error]. rewrite cls_newline, Tn.
+  { rewrite (legal_simple c t) by (rewrite Tn, orb_true_r; reflexivity). cbn [negb]. rewrite esc_err_false.
+    cbn [esc_len]. rewrite Tx, Tn.
+    unfold consume_eol. rewrite (nth_byte_skipn ch i), E. cbn [hd_error]. rewrite cls_newline, Tn.
     rewrite (nth_byte_skipn ch (S i)), E1. destruct t as [|d t']; cbn [hd_error].
     - replace ((c =? 13) && (32 =? 10) || (32 =? 13) && (c =? 10)) with false by lia.
       intros H; pinj H. split; [reflexivity|lia].
@@ -196,15 +294,20 @@ Proof.
         by (unfold lx_newline in *; lia).
       rewrite Ep. destruct (lx_newline d && negb (d =? c)); intros H; pinj H; split; try reflexivity; lia. }
   destruct ((c =? 92) || (c =? 39) || (c =? 34)) eqn:Tq.
-  { intros H; pinj H. split; [reflexivity|].
+  { rewrite (legal_simple c t) by (rewrite simple_escape_eq; cbn [existsb]; lia). cbn [negb]. rewrite esc_err_false.
+    intros H; pinj H. split; [reflexivity|]. cbn [esc_len]. rewrite Tx, Tn.
     replace (c =? 122) with false by lia. replace (lx_digit c) with false by (unfold lx_digit; lia). lia. }
   destruct (c =? 122) eqn:Tz.
-  { pose proof (skip_z_spec (S (length ch)) ch (S i) ln ls p0 ltac:(lia)) as Hz.
+  { rewrite (legal_simple c t) by (rewrite Tz, orb_true_r; reflexivity). cbn [negb]. rewrite esc_err_false.
+    cbn [esc_len]. rewrite Tx, Tn, Tz.
+    pose proof (skip_z_spec (S (length ch)) ch (S i) ln ls p0 ltac:(lia)) as Hz.
     destruct (skip_z_f (S (length ch)) ch (S i) ln ls p0) as [[i' l1] l2]. cbn [fst] in Hz. rewrite E1 in Hz.
     intros H; pinj H. split; [reflexivity|]. lia. }
   rewrite cls_digit. destruct (lx_digit c) eqn:Td.
-  { rewrite skip_digits_spec by lia. rewrite E1. intros H; pinj H. split; [reflexivity|]. lia. }
-  intros H; pinj H. split; [reflexivity|lia].
+  { rewrite (legal_digit c t Td), dec_value_spec, <- N.ltb_antisym. cbn [esc_len]. rewrite Tx, Tn, Tz, Td.
+    rewrite skip_digits_spec by lia. rewrite E1. intros H; pinj H. split; [reflexivity|]. lia. }
+  rewrite (legal_other c t) by (try rewrite simple_escape_eq; cbn [existsb]; lia).
+  intros H; pinj H. cbn [esc_len]. rewrite Tx, Tn, Tz, Td. split; [reflexivity|lia].
 Qed.
 
 (* ------------------------------------------------------------------ scan_short_f *)
@@ -212,11 +315,12 @@ Lemma str_items_nonempty Esc q bs r : StrItems Esc q bs r -> bs <> [].
 Proof. intros [r'|c bs' r' _ _ _ _|e bs' r' _ _]; discriminate. Qed.
 
 Section WithOracle.
+  Context {fx : FxEscape}.
   Variable gbk_runes : list N -> Z.
 
   Lemma scan_short_f_sound : forall f d ch i st acc ln ls p0 errs str s' errs' ov,
     scan_short_f gbk_runes f d ch i st acc ln ls p0 errs = (str, s', errs', ov) ->
-    exists es, errs' = errs ++ es /\ (es = [] -> StrItems EscCode d (skipn i ch) (chunk s')).
+    exists es, errs' = errs ++ es /\ (es = [] -> StrItems (EscFx fx) d (skipn i ch) (chunk s')).
   Proof.
     induction f as [|f IH]; intros d ch i st acc ln ls p0 errs str s' errs' ov H; cbn [scan_short_f] in H.
     { pinj H. eexists. split; [reflexivity|discriminate]. }
@@ -234,17 +338,18 @@ Section WithOracle.
     destruct (c =? 92) eqn:Eb; cbn [negb] in H.
     - apply N.eqb_eq in Eb. subst c.
       destruct (read_escape ch (S i) ln ls p0) as [[[[piece i2] ln'] ls'] es0] eqn:Hre.
-      apply read_escape_spec in Hre as [-> ->]; [|lia]. rewrite E1 in H.
-      apply IH in H as (es & -> & Hs). exists es. split; [rewrite app_nil_r; reflexivity|]. intros Ees.
+      apply read_escape_spec in Hre as [Hes ->]; [|lia]. rewrite E1 in H, Hes.
+      apply IH in H as (es & -> & Hs). exists (es0 ++ es). split; [rewrite app_assoc; reflexivity|]. intros Ees.
+      apply app_eq_nil in Ees as [E0 Ees]. subst es0.
       specialize (Hs Ees). rewrite <- (firstn_skipn (esc_len t) t) at 1.
       assert (Ht : t <> []) by (intros ->; cbn [length] in Hlen; lia).
-      apply SI_esc; [apply esc_len_sound; exact Ht|].
+      apply SI_esc; [split; [apply esc_len_sound; exact Ht|rewrite firstn_skipn; apply esc_err_nil; exact E0]|].
       replace (skipn (esc_len t) t) with (skipn (S i + esc_len t) ch) by (rewrite skipn_add, E1; reflexivity). exact Hs.
     - apply IH in H as (es & -> & Hs). exists es. split; [reflexivity|]. intros Ees. specialize (Hs Ees).
       rewrite E1 in Hs. apply SI_plain; [lia|lia|exact Eu2|exact Hs].
   Qed.
 
-  Lemma scan_short_f_complete d (Hd : d <> 92) : forall l r, StrItems EscCode d l r ->
+  Lemma scan_short_f_complete d (Hd : d <> 92) : forall l r, StrItems (EscFx fx) d l r ->
     forall f ch i st acc ln ls p0 errs, skipn i ch = l -> (length ch - i < f)%nat ->
     exists str s', scan_short_f gbk_runes f d ch i st acc ln ls p0 errs = (str, s', errs, None) /\ chunk s' = r.
   Proof.
@@ -266,6 +371,7 @@ Section WithOracle.
       apply IH; [apply (skipn_S_cons _ _ _ _ E)|lia].
     - destruct f as [|f]; [lia|]. cbn [scan_short_f].
       assert (Hlen : (S (length (e ++ bs)) = length ch - i)%nat) by (rewrite <- skipn_length, E; reflexivity).
+      destruct He as [He Hl].
       pose proof (esc_code_nonempty _ _ He) as Hne.
       assert (Hb : (1 <= length e)%nat) by (destruct e; [congruence|cbn [length]; lia]).
       rewrite app_length in Hlen.
@@ -276,20 +382,20 @@ Section WithOracle.
       cbn [is_newline N.eqb Pos.eqb orb negb].
       destruct (read_escape ch (S i) ln ls p0) as [[[[piece i2] ln'] ls'] es0] eqn:Hre.
       apply read_escape_spec in Hre as [-> ->]; [|lia].
-      pose proof (skipn_S_cons _ _ _ _ E) as E1. rewrite E1, (esc_len_complete _ _ He), app_nil_r.
+      pose proof (skipn_S_cons _ _ _ _ E) as E1. rewrite E1, (esc_len_complete _ _ He), (esc_err_legal _ Hl), app_nil_r.
       apply IH; [|lia]. rewrite skipn_add, E1, skipn_app, Nat.sub_diag, skipn_all. reflexivity.
   Qed.
 
   Lemma scan_short_sound s d rest str s' ov :
     chunk s = d :: rest -> scan_short_string gbk_runes s = (str, s', [], ov) ->
-    StrItems EscCode d rest (chunk s').
+    StrItems (EscFx fx) d rest (chunk s').
   Proof.
     intros Hch. unfold scan_short_string. rewrite Hch. intros H.
     apply scan_short_f_sound in H as (es & E & Hs). cbn [app] in E. subst es. apply (Hs eq_refl).
   Qed.
 
   Lemma scan_short_complete s d rest r :
-    chunk s = d :: rest -> d <> 92 -> StrItems EscCode d rest r ->
+    chunk s = d :: rest -> d <> 92 -> StrItems (EscFx fx) d rest r ->
     exists str s', scan_short_string gbk_runes s = (str, s', [], None) /\ chunk s' = r.
   Proof.
     intros Hch Hd HS. unfold scan_short_string. rewrite Hch.
